@@ -139,11 +139,16 @@ func c15Gen(seed int64, idx int) c15Case {
 			// build constraint (never on the file that must carry an import, so the graph stays as designed)
 			if len(importers[f]) == 0 && rng.Chance(1, 3) && (anyIncluded || f < nf-1) {
 				bc := core.Pick(rng, c15Constraints)
-				switch rng.Intn(3) {
+				switch rng.Intn(5) {
 				case 0:
 					sb.WriteString(bc.text + "\n\n")
 				case 1:
 					sb.WriteString("\n\n" + bc.text + "\n\n")
+				case 2:
+					// comments that mention words of the clauses below
+					sb.WriteString("// Fallback tables for package " + p.Name + " (pure script); import nothing here.\n// func init is in the other file\n" + bc.text + "\n\n")
+				case 3:
+					sb.WriteString("// Copyright notice\n\n// package documentation follows the constraint\n\n" + bc.text + "\n\n// Package " + p.Name + " does things.\n")
 				default:
 					sb.WriteString("// Copyright notice\n// second line\n\n" + bc.text + "\n\n")
 				}
@@ -174,6 +179,29 @@ func c15Gen(seed int64, idx int) c15Case {
 				}
 				fmt.Fprintf(&sb, "var V%d_%d = mark(%q)\n", f, k, m)
 			}
+			if rng.Chance(1, 3) {
+				// top-level statements with block-scoped variables (loop, range, if-init, switch): they need
+				// frame slots of their own at package level
+				m := fmt.Sprintf("%s/%s/stmt", p.Name, file.Name)
+				if !file.Included {
+					m = "EXCLUDED " + m
+				} else {
+					file.Markers = append(file.Markers, m)
+				}
+				acc := fmt.Sprintf("Acc%d_%d", i, f)
+				fmt.Fprintf(&sb, "var %s = 0\n", acc)
+				for l := rng.Range(1, 4); l > 0; l-- {
+					switch rng.Intn(3) {
+					case 0:
+						fmt.Fprintf(&sb, "for i := 0; i < 3; i++ {\n\tt := i * 2\n\t%s += t\n}\n", acc)
+					case 1:
+						fmt.Fprintf(&sb, "for k, w := range []int{5, 6} {\n\tkw := k * w\n\t%s += kw\n}\n", acc)
+					default:
+						fmt.Fprintf(&sb, "switch {\ncase %s > 1000000:\n\t%s = 0\ndefault:\n\ty := %s + 1\n\t%s = y\n}\n", acc, acc, acc, acc)
+					}
+				}
+				fmt.Fprintf(&sb, "if v := %s; v >= 0 {\n\tmark(%q)\n}\n", acc, m)
+			}
 			if rng.Bool() {
 				m := fmt.Sprintf("%s/%s/init", p.Name, file.Name)
 				if !file.Included {
@@ -189,12 +217,17 @@ func c15Gen(seed int64, idx int) c15Case {
 			c.Files[p.Dir+"/"+file.Name] = sb.String()
 			p.Files = append(p.Files, file)
 		}
-		if rng.Chance(1, 4) {
-			pk := p.Name
-			if rng.Bool() {
-				pk += "_test"
+		if rng.Chance(1, 3) {
+			// one to three test files, some of them adjacent in the sorted directory listing
+			tnames := []string{"a_test.go", "x_test.go", p.Name + "_test.go", "xa_test.go", "y_test.go", "a_b_test.go"}
+			core.Shuffle(rng, tnames)
+			for _, tn := range tnames[:rng.Range(1, 3)] {
+				pk := p.Name
+				if rng.Bool() {
+					pk += "_test"
+				}
+				c.Files[p.Dir+"/"+tn] = fmt.Sprintf("package %s\n\nvar _ = mark(\"TEST %s\")\n\nfunc init() {\n\tmark(\"TEST init %s\")\n}\n", pk, p.Name, p.Name)
 			}
-			c.Files[p.Dir+"/"+core.Pick(rng, []string{"a_test.go", "x_test.go", p.Name + "_test.go"})] = fmt.Sprintf("package %s\n\nvar _ = mark(\"TEST %s\")\n\nfunc init() {\n\tmark(\"TEST init %s\")\n}\n", pk, p.Name, p.Name)
 		}
 	}
 	c.Pkgs = pkgs
@@ -381,7 +414,7 @@ func c15Check(c c15Case, log []string, o core.Outcome) string {
 }
 
 func runC15(r *core.Run) {
-	r.SetRule("random acyclic import graphs of 1-12 packages (fan-out <= 4, diamonds, chains, unreachable packages), 1-4 files per package with sort-order trap names, per-file imports and aliases, directories at the full import path / under vendor/ (optionally with a decoy at the plain path) / at a shortened suffix, //go:build lines of known truth (first line, after blank lines, after a comment block), _test.go files incl. package x_test; entry through Load(package) or Eval with an import; plus every digraph on <= 3 nodes and every sparse digraph on 4 nodes with a cycle reachable from the entry, and conflicting package clauses. non-trivial = at least 2 packages ran markers (or the case must fail); distinct by file tree")
+	r.SetRule("random acyclic import graphs of 1-12 packages (fan-out <= 4, diamonds, chains, unreachable packages), 1-4 files per package with sort-order trap names, per-file imports and aliases, directories at the full import path / under vendor/ (optionally with a decoy at the plain path) / at a shortened suffix, //go:build lines of known truth (first line, after blank lines, after comment blocks that mention 'package', 'import' and 'func', before a package comment), 1-3 _test.go files incl. package x_test and adjacent ones; top-level statements with block-scoped variables (for, range, switch and if with init) in packages at every depth of the graph; entry through Load(package) or Eval with an import; plus every digraph on <= 3 nodes and every sparse digraph on 4 nodes with a cycle reachable from the entry, and conflicting package clauses. non-trivial = at least 2 packages ran markers (or the case must fail); distinct by file tree")
 	r.Assume("only the partial order (dependencies before dependents), exactly-once and the exclusion rules are judged, not one particular topological order")
 	n := r.N(3000, 120000)
 	core.Parallel((n+99)/100, func(chunk int) {
